@@ -305,7 +305,11 @@ func (fr *Frame) toIface(s *State, v *Val, to types.Type) *Val {
 	name := fr.vc.define("ifc", "Int", term)
 	s.assume(fmt.Sprintf("(and (= (tagof %s) %d) (= (%s %s) %s) (> %s 0))", name, id, unbox, name, v.S, name))
 	fr.hashableFact(s, t, id)
-	return &Val{T: to, S: name}
+	if _, isPtr := t.Underlying().(*types.Pointer); isPtr {
+		fr.eng.streamSyms()
+		s.assume(fmt.Sprintf("(= (wkey %s) %s)", name, v.S))
+	}
+	return &Val{T: to, S: name, Dyn: &Val{T: t, S: v.S}}
 }
 
 // convertTo performs the implicit assignability conversion of v to type t.
@@ -317,7 +321,7 @@ func (fr *Frame) convertTo(s *State, v *Val, t types.Type) *Val {
 		if _, isI := v.T.Underlying().(*types.Interface); !isI {
 			return fr.toIface(s, v, t)
 		}
-		return &Val{T: t, S: v.S, Fn: v.Fn}
+		return &Val{T: t, S: v.S, Fn: v.Fn, Dyn: v.Dyn}
 	}
 	if b, ok := v.T.Underlying().(*types.Basic); ok && b.Kind() == types.UntypedNil {
 		return &Val{T: t, S: fr.eng.zeroOf(t)}
@@ -325,7 +329,7 @@ func (fr *Frame) convertTo(s *State, v *Val, t types.Type) *Val {
 	if types.Identical(v.T, t) {
 		return v
 	}
-	return &Val{T: t, S: v.S, Fn: v.Fn, Const: v.Const}
+	return &Val{T: t, S: v.S, Fn: v.Fn, Const: v.Const, Dyn: v.Dyn}
 }
 
 // havocEverything forgets the whole heap and all mutable globals; global invariants hold again afterwards
